@@ -83,16 +83,17 @@ NewEmptyItemAt(bs, d) ==
 Init == doc = <<>> /\ n = 0
 
 AddLeaf(d, kind) ==
-    /\ n < MaxNodes /\ kind # "EI"
+    /\ n < MaxNodes
+    /\ kind # "EI"
     /\ doc' = AddAt(doc, d, Leaf(kind, n + 1))
     /\ n' = n + 1
 
 OpenCont(d, ckind, kind) ==
     /\ n + 2 <= MaxNodes
     /\ d + 1 <= MaxDepth
+    /\ (kind = "EI" => ckind # "Q")
     /\ doc' = IF kind = "EI" /\ ckind # "Q" THEN AddAt(doc, d, B(ckind, 0, <<>>, <<>>, << <<>> >>, <<>>, ""))
               ELSE AddAt(doc, d, Cont(ckind, Leaf(kind, n + 2)))
-    /\ (kind = "EI" => ckind # "Q")
     /\ n' = n + 2
 
 NewItem(d, kind) ==
